@@ -133,32 +133,34 @@ example : codeLoop (fun (i : Fin 3) => Step.next (i + 1) false) 100 (some 0) = 0
     code anywhere in it): the client's `MsgRecv` calls return the messages in order and from then on
     an error whose text is `e.Error()` byte for byte and whose code is `drpcerr.Code(e)` — for unary
     calls (client already closed its send side) and streams alike.
+    This holds in auto-flush and in ManualFlush mode alike, also with unflushed frames in the
+    client's writer (`u`; the masking of DESIGN §9-13 was repaired by fix 56786c9 — the errs suite keeps
+    the former replay as the regression oracle "manualflush-error-visible").
     Hypotheses of the model: the handler has not called CloseSend before returning (see
-    `error_after_closesend_counterexample`), auto-flush or nothing unflushed on the client (see
-    `manual_flush_masks_error_counterexample`), no transport fault or cancellation. -/
+    `error_after_closesend_counterexample`), no transport fault or cancellation. -/
 theorem handler_error_reaches_client (msgs : List Bytes) (e : Err) (clientClosed : Bool) :
     let c := clientOf (scriptHandler (msgs.map .send) (some e)) clientClosed
     c.delivered = msgs ∧
-    (∀ n (hn : n < msgs.length), c.recv false n = .msg msgs[n]) ∧
-    (∀ n, msgs.length ≤ n → c.recv false n = .error e.text (code (some e))) :=
+    (∀ u n (hn : n < msgs.length), c.recv u n = .msg msgs[n]) ∧
+    (∀ u n, msgs.length ≤ n → c.recv u n = .error e.text (code (some e))) :=
   recv_of_fail _ msgs e (clientOf_fail _ msgs e clientClosed rfl)
 
 /-- … so a code attached below fewer than 100 wrappers arrives as that code, with the full text. -/
 theorem handler_coded_error_reaches_client (msgs : List Bytes) (ws : List Wrap) (k : U64) (inner : Err)
     (clientClosed : Bool) (hd : ws.length < 100) :
     let e := wrapAll ws (.coded k inner)
-    ∀ n, msgs.length ≤ n →
-      (clientOf (scriptHandler (msgs.map .send) (some e)) clientClosed).recv false n = .error e.text k := by
-  intro e n hn
-  have := (handler_error_reaches_client msgs e clientClosed).2.2 n hn
+    ∀ u n, msgs.length ≤ n →
+      (clientOf (scriptHandler (msgs.map .send) (some e)) clientClosed).recv u n = .error e.text k := by
+  intro e u n hn
+  have := (handler_error_reaches_client msgs e clientClosed).2.2 u n hn
   rw [this, code_found_at_depth ws k inner hd]
 
 /-- non-vacuity: three messages, then an error with code 2^64−1 and a text containing '%', NUL and 0xFF -/
 example :
     (clientOf (scriptHandler [.send [1#8], .send [], .send [2#8]]
-      (some (.coded 0xFFFFFFFFFFFFFFFF#64 (.leaf [37#8, 115#8, 0#8, 255#8])))) false).recv false 3
+      (some (.coded 0xFFFFFFFFFFFFFFFF#64 (.leaf [37#8, 115#8, 0#8, 255#8])))) false).recv true 3
       = .error [37#8, 115#8, 0#8, 255#8] 0xFFFFFFFFFFFFFFFF#64 :=
-  (handler_error_reaches_client [[1#8], [], [2#8]] _ false).2.2 3 (by decide)
+  (handler_error_reaches_client [[1#8], [], [2#8]] _ false).2.2 true 3 (by decide)
 
 /-- A handler that returns nil never yields an error at the client, whatever it did on the stream. -/
 theorem success_never_yields_error (ops : List HOp) (clientClosed unflushed : Bool) (n : Nat) (t : Bytes) (k : U64) :
@@ -176,8 +178,8 @@ theorem success_never_yields_error (ops : List HOp) (clientClosed unflushed : Bo
 theorem success_delivers_all (msgs : List Bytes) (clientClosed : Bool) :
     let c := clientOf (scriptHandler (msgs.map .send) none) clientClosed
     c.delivered = msgs ∧
-    (∀ n (hn : n < msgs.length), c.recv false n = .msg msgs[n]) ∧
-    (∀ n, msgs.length ≤ n → c.recv false n = .eof) :=
+    (∀ u n (hn : n < msgs.length), c.recv u n = .msg msgs[n]) ∧
+    (∀ u n, msgs.length ≤ n → c.recv u n = .eof) :=
   recv_of_ok _ msgs clientClosed (clientOf_ok _ msgs clientClosed rfl)
 
 /-! ## through drpcmux -/
@@ -185,18 +187,18 @@ theorem success_delivers_all (msgs : List Bytes) (clientClosed : Bool) :
 /-- Failures produced by the dispatcher itself reach the client: an unknown rpc as the
     ProtocolError text with code 0, an undecodable request as the decoder's error text (and its
     code as found through the `errs.Wrap` the mux adds). -/
-theorem dispatcher_errors_reach_client (rpc : Bytes) (r : Receiver) (de : Err) (clientClosed : Bool) (n : Nat) :
-    (clientOf (muxHandleRPC .unknown rpc none r) clientClosed).recv false n =
+theorem dispatcher_errors_reach_client (rpc : Bytes) (r : Receiver) (de : Err) (clientClosed u : Bool) (n : Nat) :
+    (clientOf (muxHandleRPC .unknown rpc none r) clientClosed).recv u n =
       .error (asciiBytes "protocol error: unknown rpc: " ++ quote rpc) 0#64 ∧
-    (clientOf (muxHandleRPC .message rpc (some de) r) clientClosed).recv false n =
+    (clientOf (muxHandleRPC .message rpc (some de) r) clientClosed).recv u n =
       .error de.text (code (some (errsWrap none de))) := by
   constructor
   · have h := (recv_of_fail _ [] (unknownRpcErr rpc)
-      (clientOf_fail (muxHandleRPC .unknown rpc none r) [] (unknownRpcErr rpc) clientClosed rfl)).2.2 n (Nat.zero_le _)
+      (clientOf_fail (muxHandleRPC .unknown rpc none r) [] (unknownRpcErr rpc) clientClosed rfl)).2.2 u n (Nat.zero_le _)
     rw [h]
     rw [text_unknownRpcErr]; rfl
   · have h := (recv_of_fail _ [] (errsWrap none de)
-      (clientOf_fail (muxHandleRPC .message rpc (some de) r) [] (errsWrap none de) clientClosed rfl)).2.2 n (Nat.zero_le _)
+      (clientOf_fail (muxHandleRPC .message rpc (some de) r) [] (errsWrap none de) clientClosed rfl)).2.2 u n (Nat.zero_le _)
     rw [h, text_errsWrap_none]
 
 /-- A method dispatched by the mux that sends `msgs` and returns `e`: as for a bare handler; the
@@ -205,8 +207,8 @@ theorem mux_handler_error_reaches_client (entry : MuxEntry) (hentry : entry ≠ 
     (msgs : List Bytes) (out : Option (Except Err Bytes)) (e : Err) (clientClosed : Bool) :
     let c := clientOf (muxHandleRPC entry rpc none { ops := msgs.map .send, out := out, err := some e }) clientClosed
     c.delivered = msgs ∧
-    (∀ n (hn : n < msgs.length), c.recv false n = .msg msgs[n]) ∧
-    (∀ n, msgs.length ≤ n → c.recv false n = .error e.text (code (some (errsWrap none e)))) := by
+    (∀ u n (hn : n < msgs.length), c.recv u n = .msg msgs[n]) ∧
+    (∀ u n, msgs.length ≤ n → c.recv u n = .error e.text (code (some (errsWrap none e)))) := by
   intro c
   have hc : c = { delivered := msgs, closed := some (.err (unmarshalError (marshalError (errsWrap none e)))),
                   sendSet := true, term := true } := by
@@ -223,11 +225,11 @@ theorem mux_handler_error_reaches_client (entry : MuxEntry) (hentry : entry ≠ 
 theorem mux_coded_error_reaches_client (entry : MuxEntry) (hentry : entry ≠ .unknown) (rpc : Bytes)
     (msgs : List Bytes) (ws : List Wrap) (k : U64) (inner : Err) (clientClosed : Bool) (hd : ws.length < 99) :
     let e := wrapAll ws (.coded k inner)
-    ∀ n, msgs.length ≤ n →
-      (clientOf (muxHandleRPC entry rpc none { ops := msgs.map .send, err := some e }) clientClosed).recv false n
+    ∀ u n, msgs.length ≤ n →
+      (clientOf (muxHandleRPC entry rpc none { ops := msgs.map .send, err := some e }) clientClosed).recv u n
         = .error e.text k := by
-  intro e n hn
-  rw [(mux_handler_error_reaches_client entry hentry rpc msgs none e clientClosed).2.2 n hn]
+  intro e u n hn
+  rw [(mux_handler_error_reaches_client entry hentry rpc msgs none e clientClosed).2.2 u n hn]
   have hk : code (some (errsWrap none e)) = k := by
     rcases code_errsWrap_none e with h | h
     · rw [h]; exact code_found_at_depth ws k inner (by omega)
@@ -242,8 +244,8 @@ theorem mux_coded_error_reaches_client (entry : MuxEntry) (hentry : entry ≠ .u
     sent itself, then the response, then end-of-stream; never an error. -/
 theorem mux_success_never_yields_error (rpc : Bytes) (msgs : List Bytes) (d : Bytes) (clientClosed : Bool) :
     let c := clientOf (muxHandleRPC .message rpc none { ops := msgs.map .send, out := some (.ok d) }) clientClosed
-    c.delivered = msgs ++ [d] ∧ (∀ n, msgs.length + 1 ≤ n → c.recv false n = .eof) ∧
-    (∀ n, n ≤ msgs.length → ∃ m, c.recv false n = .msg m) := by
+    c.delivered = msgs ++ [d] ∧ (∀ u n, msgs.length + 1 ≤ n → c.recv u n = .eof) ∧
+    (∀ u n, n ≤ msgs.length → ∃ m, c.recv u n = .msg m) := by
   intro c
   have hh : muxHandleRPC .message rpc none { ops := msgs.map .send, out := some (.ok d) } { recvSet := clientClosed }
       = (SStream.runOps { recvSet := clientClosed } ((msgs ++ [d]).map .send), none) := by
@@ -253,28 +255,19 @@ theorem mux_success_never_yields_error (rpc : Bytes) (msgs : List Bytes) (d : By
   have hc := clientOf_ok _ (msgs ++ [d]) clientClosed hh
   have := recv_of_ok c (msgs ++ [d]) clientClosed hc
   refine ⟨this.1, ?_, ?_⟩
-  · intro n hn; exact this.2.2 n (by simpa using hn)
-  · intro n hn; exact ⟨_, this.2.1 n (by simp; omega)⟩
+  · intro u n hn; exact this.2.2 u n (by simpa using hn)
+  · intro u n hn; exact ⟨_, this.2.1 u n (by simp; omega)⟩
 
-/-! ## the excluded points -/
+/-! ## the excluded point -/
 
-/-- The first hypothesis of `handler_error_reaches_client` is needed: a handler that closes its send
+/-- The hypothesis of `handler_error_reaches_client` is needed: a handler that closes its send
     side (e.g. generated `SendAndClose`) and then returns an error — the client's receive buffer is
     already closed with io.EOF, the later error packet cannot replace it, and `MsgRecv` reports a
     clean end-of-stream.  Replayed on the implementation (oracle "error-after-closesend"). -/
-theorem error_after_closesend_counterexample (e : Err) (clientClosed : Bool) (n : Nat) :
-    (clientOf (scriptHandler [.closeSend] (some e)) clientClosed).recv false n = .eof := by
+theorem error_after_closesend_counterexample (e : Err) (clientClosed u : Bool) (n : Nat) :
+    (clientOf (scriptHandler [.closeSend] (some e)) clientClosed).recv u n = .eof := by
   cases clientClosed <;>
     simp [clientOf, serve, scriptHandler, SStream.runOps, SStream.runOp, SStream.closeSend, SStream.sendError,
       CStream.handleAll, CStream.handle, CStream.recv, kCloseSend, kMessage, kError]
-
-/-- The second hypothesis is needed: in ManualFlush mode with unflushed frames in the client's
-    writer, every `MsgRecv` after the error arrived first tries to flush, the flush is refused with
-    the send side's io.EOF, and the handler's error is masked as end-of-stream (DESIGN §9-13).
-    Replayed on the implementation (oracle "manualflush-masks-error"). -/
-theorem manual_flush_masks_error_counterexample (msgs : List Bytes) (e : Err) (n : Nat) :
-    (clientOf (scriptHandler (msgs.map .send) (some e)) false).recv true n = .eof := by
-  rw [clientOf_fail _ msgs e false rfl]
-  simp [CStream.recv]
 
 end Drpc.Props.C10
